@@ -559,9 +559,11 @@ def check_c01(tier, replay):
             "folder_description are compared with the spec state and between backends. Non-trivial = "
             "behaviour with a state-changing step; distinct by action/argument sequence.")
     if tier == "quick":
-        inst = [{"consts": base_consts(MetaFolders=["f1"]), "max_len": 60}]
+        # v1 -> v1t changes only the meta data (tags): the update passes no secret value
+        inst = [{"consts": base_consts(MetaFolders=["f1"], Values=["v1", "v1t"]), "max_len": 60}]
     else:
-        inst = [{"consts": base_consts(), "representatives": False, "max_len": 80},
+        inst = [{"consts": base_consts(Values=["v1", "v1t"]), "representatives": False, "max_len": 80},
+                {"consts": base_consts(MetaFolders=["f1"]), "max_len": 80},
                 {"consts": base_consts(Values=["v3", "v4", "v5"], MetaFolders=["f1"]), "max_len": 80},
                 {"consts": base_consts(Values=["v6", "v7"], Slots=["s1", "s2", "s3"], MetaFolders=["f1"],
                                        Enabled=[a for a in C01_ENABLED if a not in ("SetFlags", "SetDescription", "LockUnlock")]),
